@@ -4,6 +4,9 @@ gen/StatusTable.vos gen/StatusTable.vok gen/StatusTable.required_vos: gen/Status
 gen/SummaryTables.vo gen/SummaryTables.glob gen/SummaryTables.v.beautified gen/SummaryTables.required_vo: gen/SummaryTables.v theories/Base.vo theories/Status.vo
 gen/SummaryTables.vio: gen/SummaryTables.v theories/Base.vio theories/Status.vio
 gen/SummaryTables.vos gen/SummaryTables.vok gen/SummaryTables.required_vos: gen/SummaryTables.v theories/Base.vos theories/Status.vos
+gen/UnicodeTables.vo gen/UnicodeTables.glob gen/UnicodeTables.v.beautified gen/UnicodeTables.required_vo: gen/UnicodeTables.v theories/Base.vo
+gen/UnicodeTables.vio: gen/UnicodeTables.v theories/Base.vio
+gen/UnicodeTables.vos gen/UnicodeTables.vok gen/UnicodeTables.required_vos: gen/UnicodeTables.v theories/Base.vos
 theories/Base.vo theories/Base.glob theories/Base.v.beautified theories/Base.required_vo: theories/Base.v 
 theories/Base.vio: theories/Base.v 
 theories/Base.vos theories/Base.vok theories/Base.required_vos: theories/Base.v 
@@ -73,6 +76,15 @@ theories/Summary.vos theories/Summary.vok theories/Summary.required_vos: theorie
 theories/SummaryProofs.vo theories/SummaryProofs.glob theories/SummaryProofs.v.beautified theories/SummaryProofs.required_vo: theories/SummaryProofs.v theories/Base.vo theories/Status.vo theories/Rollup.vo theories/RollupProofs.vo theories/Runner.vo theories/RunnerRange.vo theories/Summary.vo gen/StatusTable.vo gen/SummaryTables.vo
 theories/SummaryProofs.vio: theories/SummaryProofs.v theories/Base.vio theories/Status.vio theories/Rollup.vio theories/RollupProofs.vio theories/Runner.vio theories/RunnerRange.vio theories/Summary.vio gen/StatusTable.vio gen/SummaryTables.vio
 theories/SummaryProofs.vos theories/SummaryProofs.vok theories/SummaryProofs.required_vos: theories/SummaryProofs.v theories/Base.vos theories/Status.vos theories/Rollup.vos theories/RollupProofs.vos theories/Runner.vos theories/RunnerRange.vos theories/Summary.vos gen/StatusTable.vos gen/SummaryTables.vos
+theories/TagExpr.vo theories/TagExpr.glob theories/TagExpr.v.beautified theories/TagExpr.required_vo: theories/TagExpr.v theories/Base.vo theories/UStr.vo gen/UnicodeTables.vo
+theories/TagExpr.vio: theories/TagExpr.v theories/Base.vio theories/UStr.vio gen/UnicodeTables.vio
+theories/TagExpr.vos theories/TagExpr.vok theories/TagExpr.required_vos: theories/TagExpr.v theories/Base.vos theories/UStr.vos gen/UnicodeTables.vos
+theories/TagExprProofs.vo theories/TagExprProofs.glob theories/TagExprProofs.v.beautified theories/TagExprProofs.required_vo: theories/TagExprProofs.v theories/Base.vo theories/UStr.vo theories/TagExpr.vo gen/UnicodeTables.vo
+theories/TagExprProofs.vio: theories/TagExprProofs.v theories/Base.vio theories/UStr.vio theories/TagExpr.vio gen/UnicodeTables.vio
+theories/TagExprProofs.vos theories/TagExprProofs.vok theories/TagExprProofs.required_vos: theories/TagExprProofs.v theories/Base.vos theories/UStr.vos theories/TagExpr.vos gen/UnicodeTables.vos
+theories/UStr.vo theories/UStr.glob theories/UStr.v.beautified theories/UStr.required_vo: theories/UStr.v theories/Base.vo gen/UnicodeTables.vo
+theories/UStr.vio: theories/UStr.v theories/Base.vio gen/UnicodeTables.vio
+theories/UStr.vos theories/UStr.vok theories/UStr.required_vos: theories/UStr.v theories/Base.vos gen/UnicodeTables.vos
 props/C01.vo props/C01.glob props/C01.v.beautified props/C01.required_vo: props/C01.v theories/Base.vo theories/Status.vo theories/Rollup.vo theories/Runner.vo theories/RunnerVerdict.vo theories/RunnerSteps.vo theories/RunnerQuiet.vo theories/RunnerEq.vo gen/StatusTable.vo
 props/C01.vio: props/C01.v theories/Base.vio theories/Status.vio theories/Rollup.vio theories/Runner.vio theories/RunnerVerdict.vio theories/RunnerSteps.vio theories/RunnerQuiet.vio theories/RunnerEq.vio gen/StatusTable.vio
 props/C01.vos props/C01.vok props/C01.required_vos: props/C01.v theories/Base.vos theories/Status.vos theories/Rollup.vos theories/Runner.vos theories/RunnerVerdict.vos theories/RunnerSteps.vos theories/RunnerQuiet.vos theories/RunnerEq.vos gen/StatusTable.vos
@@ -82,6 +94,12 @@ props/C02.vos props/C02.vok props/C02.required_vos: props/C02.v theories/Base.vo
 props/C03.vo props/C03.glob props/C03.v.beautified props/C03.required_vo: props/C03.v theories/Base.vo theories/Status.vo theories/Rollup.vo theories/RollupProofs.vo gen/StatusTable.vo
 props/C03.vio: props/C03.v theories/Base.vio theories/Status.vio theories/Rollup.vio theories/RollupProofs.vio gen/StatusTable.vio
 props/C03.vos props/C03.vok props/C03.required_vos: props/C03.v theories/Base.vos theories/Status.vos theories/Rollup.vos theories/RollupProofs.vos gen/StatusTable.vos
+props/C07.vo props/C07.glob props/C07.v.beautified props/C07.required_vo: props/C07.v theories/Base.vo theories/UStr.vo theories/TagExpr.vo theories/TagExprProofs.vo
+props/C07.vio: props/C07.v theories/Base.vio theories/UStr.vio theories/TagExpr.vio theories/TagExprProofs.vio
+props/C07.vos props/C07.vok props/C07.required_vos: props/C07.v theories/Base.vos theories/UStr.vos theories/TagExpr.vos theories/TagExprProofs.vos
+props/C08.vo props/C08.glob props/C08.v.beautified props/C08.required_vo: props/C08.v theories/Base.vo theories/UStr.vo theories/TagExpr.vo theories/TagExprProofs.vo
+props/C08.vio: props/C08.v theories/Base.vio theories/UStr.vio theories/TagExpr.vio theories/TagExprProofs.vio
+props/C08.vos props/C08.vok props/C08.required_vos: props/C08.v theories/Base.vos theories/UStr.vos theories/TagExpr.vos theories/TagExprProofs.vos
 props/C09.vo props/C09.glob props/C09.v.beautified props/C09.required_vo: props/C09.v theories/Base.vo theories/Status.vo theories/Rollup.vo theories/Runner.vo theories/RunnerSteps.vo theories/RunnerQuiet.vo theories/RunnerSelect.vo theories/RunnerEq.vo gen/StatusTable.vo
 props/C09.vio: props/C09.v theories/Base.vio theories/Status.vio theories/Rollup.vio theories/Runner.vio theories/RunnerSteps.vio theories/RunnerQuiet.vio theories/RunnerSelect.vio theories/RunnerEq.vio gen/StatusTable.vio
 props/C09.vos props/C09.vok props/C09.required_vos: props/C09.v theories/Base.vos theories/Status.vos theories/Rollup.vos theories/Runner.vos theories/RunnerSteps.vos theories/RunnerQuiet.vos theories/RunnerSelect.vos theories/RunnerEq.vos gen/StatusTable.vos
